@@ -26,6 +26,13 @@ build() { # $1 = profile
 
 if [ "${1:-}" = "replay" ]; then
   file="${2:?usage: ./check.sh replay <file>}"
+  if grep -q '"sub": "fuzz-artifact"' "$file" 2>/dev/null; then
+    T=$(sed -n 's/.*"target": "\(.*\)".*/\1/p' "$file"); A=$(sed -n 's/.*"artifact": "\(.*\)".*/\1/p' "$file"); P=$(sed -n 's/.*"property": "\(.*\)".*/\1/p' "$file")
+    (cd harness && cargo +nightly fuzz build "$T") >work/build-fuzz-$$.log 2>&1 || { tail -20 work/build-fuzz-$$.log >&2; exit 2; }
+    if MQV_ROOT="$ROOT" "$ROOT/target/x86_64-unknown-linux-gnu/release/$T" "$A" >work/replay-fuzz-$$.log 2>&1; then echo "replay: fuzz target $T passes on $A"; exit 0; fi
+    grep -a -E "MQV-VIOLATION|ERROR: AddressSanitizer|panicked at" work/replay-fuzz-$$.log | head -3
+    echo "VIOLATION property=$P replay=$file"; exit 1
+  fi
   build relcheck
   build release
   rc=0
@@ -44,6 +51,16 @@ build relcheck
 EXTRA=()
 case "$TWO_PROFILE" in *" $ID "*) build release; EXTRA=(--release-bin "$RELEASE_BIN");; esac
 if [ "$TIER" = thorough ]; then LIMIT=5400; else LIMIT=900; fi
+FUZZ_IDS=" C03 C04 C06 C11 C12 "
+if [ "$TIER" = thorough ] && [ "${MQV_NO_FUZZ:-0}" != 1 ]; then
+  case "$FUZZ_IDS" in *" $ID "*)
+    build release
+    "$ROOT/fuzz.sh" "$ID" "$SEED" || exit $?
+    # the raw-input corpora are replayed through the plain binaries by the check itself
+    CORPUS="$ROOT/work/fuzz/$ID/corpus"
+    EXTRA+=(--fuzz-stats "$ROOT/work/fuzz/$ID/stats.json" --fuzz-corpus "$CORPUS");;
+  esac
+fi
 timeout --signal=KILL "$LIMIT" "$RELCHECK_BIN" check "$ID" --tier "$TIER" --seed "$SEED" --root "$ROOT" "${EXTRA[@]}"
 rc=$?
 if [ "$rc" = 137 ]; then
@@ -54,8 +71,5 @@ if [ "$rc" != 0 ] && [ "$rc" != 1 ] && [ "$rc" != 2 ]; then
   # abnormal termination without a dump from the abort handler
   echo "INCONCLUSIVE: check process ended with status $rc" >&2
   exit 2
-fi
-if [ "$rc" = 0 ] && [ "$TIER" = thorough ] && [ -x "$ROOT/fuzz.sh" ]; then
-  "$ROOT/fuzz.sh" "$ID" "$SEED" || exit $?
 fi
 exit $rc
